@@ -11,9 +11,11 @@
    process-wide state (working directory); whether two real clones share a location is decided by
    the alias translator (gen/Alias.v, side condition [pairwise_disjointb footprints = true]) and by
    the AST fact [global_write_sites = []]; goroutine-safety of the observers shared by design
-   (saver, loggers) is outside the model. *)
+   (loggers) is outside the model; the result saver's shared decompression model is modelled at the
+   granularity of lock / load / read / unlock instructions (SharedSection.v, theorems 9-10 below), the
+   instruction sequence of a real save being observed by the harness's probe (gen/SaverTrace.v). *)
 From Coq Require Import List NArith ZArith QArith Bool Arith.
-From Crem Require Import Base.Res CloneIndep CloneIndepProofs.
+From Crem Require Import Base.Res CloneIndep CloneIndepProofs SharedSection SharedSectionProofs.
 Import ListNotations.
 Local Open Scope nat_scope.
 
@@ -190,6 +192,44 @@ Example C08_example_interleaved :
   firstn 8 (run_ids (trace s)) = [0; 0; 0; 1; 0; 0; 1; 1].
 Proof. vm_compute. repeat split; reflexivity. Qed.
 
+(* 9. The one mutable object the runs share by design: the result saver's decompression model, guarded by
+   Saver.decompressionMutex.  Each run executes a program of Lock / load c / read-filed-under c / Unlock
+   instructions, one instruction per scheduler action.  If every run's program keeps the lock discipline
+   (loads and reads only between Lock and Unlock; a read filed under c follows a load of c in the same
+   critical section) then, for EVERY number of runs and EVERY interleaving, every value a run files under one
+   of its solutions is the valuation of THAT solution -- never another run's.  [load_obs] is C01 (the values
+   read after loading an action set are a function of the action set alone). *)
+Theorem C08_shared_saver_reads_are_own :
+  forall (M In Out : Type) (load : In -> M -> M) (obs : M -> Out) (eval : In -> Out) (in_eqb : In -> In -> bool),
+  (forall c m, obs (load c m) = eval c) ->
+  (forall a b, in_eqb a b = true -> a = b) ->
+  forall m0 progs sched,
+  forallb (disciplined In in_eqb Outside) progs = true ->
+  forall r c o, List.In (r, c, o) (ss_outs M In Out (sexec M In Out load obs m0 progs sched)) -> o = eval c.
+Proof. exact disciplined_reads_are_own. Qed.
+
+(* ... and the saver's critical section (Lock; load; any number of reads; Unlock) keeps the discipline *)
+Theorem C08_saver_section_disciplined :
+  forall (In : Type) (in_eqb : In -> In -> bool) c n, (forall a, in_eqb a a = true) ->
+  disciplined In in_eqb Outside (section In c n) = true.
+Proof. exact section_disciplined. Qed.
+
+(* 10. The discipline is needed: with a read after Unlock (Lock; load c; Unlock; read) there is an interleaving of
+   two runs in which run 0 files run 1's value (2) under its own solution (1). *)
+Theorem C08_unprotected_read_refuted :
+  let s := sexec nat nat nat (fun c _ => c) (fun m => m) 0 [leaky_prog 1; leaky_prog 2] [0; 0; 0; 1; 1; 1; 0] in
+  ss_outs nat nat nat s = [(0, 1, 2)] /\ disciplined nat Nat.eqb Outside (leaky_prog 1) = false.
+Proof. exact (conj unprotected_read_leaks (leaky_prog_not_disciplined 1)). Qed.
+
+(* Non-vacuity: three runs with two solutions each, a genuinely interleaved schedule (run 1 blocks on the mutex) *)
+Example C08_example_shared_saver :
+  let progs := [section nat 1 2 ++ section nat 2 1; section nat 3 2 ++ section nat 4 2; section nat 5 1] in
+  forallb (disciplined nat Nat.eqb Outside) progs = true /\
+  ss_outs nat nat nat (sexec nat nat nat (fun c _ => c) (fun m => m) 0 progs
+                         [0; 1; 0; 1; 0; 2; 0; 0; 1; 1; 2; 1; 1; 1; 0; 2; 2; 0; 2; 0; 0; 1; 1; 1; 1; 1; 2; 2; 2; 2])
+  = [(0, 1, 1); (0, 1, 1); (1, 3, 3); (1, 3, 3); (0, 2, 2); (1, 4, 4); (1, 4, 4); (2, 5, 5)].
+Proof. vm_compute. split; reflexivity. Qed.
+
 Print Assumptions C08_noninterference.
 Print Assumptions C08_complete_runs_equal_solo.
 Print Assumptions C08_runner_counting.
@@ -205,3 +245,6 @@ Print Assumptions C08_schedules_bounded.
 Print Assumptions C08_maximal_schedule_returns_or_crashes.
 Print Assumptions C08_crash_is_a_solo_panic.
 Print Assumptions C08_annealing_scenario_always_returns.
+Print Assumptions C08_shared_saver_reads_are_own.
+Print Assumptions C08_saver_section_disciplined.
+Print Assumptions C08_unprotected_read_refuted.
